@@ -993,7 +993,8 @@ class EClass(EClassifier):
         super_types = self.eGenericSuperTypes
         yield from self.eGenericSuperTypes
         for x in super_types:
-            yield from x.eClassifier._eAllGenericSuperTypes_gen()
+            if x.eClassifier is not None:  # no classifier (yet)
+                yield from x.eClassifier._eAllGenericSuperTypes_gen()
 
     def eAllGenericSuperTypes(self):
         return OrderedSet(self._eAllGenericSuperTypes_gen())
@@ -1007,7 +1008,8 @@ class EClass(EClassifier):
         for parent in self.eSuperTypes:
             yield from parent._eAllStructuralFeatures_gen()
         for parent in self.eGenericSuperTypes:
-            yield from parent.eClassifier._eAllStructuralFeatures_gen()
+            if parent.eClassifier is not None:  # no classifier (yet)
+                yield from parent.eClassifier._eAllStructuralFeatures_gen()
 
     def eAllStructuralFeatures(self):
         return OrderedSet(self._eAllStructuralFeatures_gen())
